@@ -150,10 +150,11 @@ theorem genStep_spec (sqrt : K → K) (m n rs cs : Nat) (B : Array K) (i : Nat)
       rw [addr_x, show i + 1 + (l - i - 1) = l by omega] at this
       rw [← addr_ii]; exact this
 
-/-- the dot product of `apply_reflector` in step `i`, column `c`: `Σ_{r<m} w(r)·A(r,c)` -/
-theorem colDot_step (m rs cs : Nat) (A : Array K) (i c' : Nat) (him : i < m) :
-    colDot (m - i) A (i * (rs + cs)) rs rs A (i * (rs + cs) + cs + c' * cs)
-      = ∑ r ∈ range m, wnat A rs cs i r * A.getD (r * rs + (i + 1 + c') * cs) 0 := by
+/-- the dot product of `apply_reflector` in step `i`, column `c` (reflector read from `V`, block in `C`):
+`Σ_{r<m} w(r)·C(r,c)` -/
+theorem colDot_step (m rs cs : Nat) (V C : Array K) (i c' : Nat) (him : i < m) :
+    colDot (m - i) V (i * (rs + cs)) rs rs C (i * (rs + cs) + cs + c' * cs)
+      = ∑ r ∈ range m, wnat V rs cs i r * C.getD (r * rs + (i + 1 + c') * cs) 0 := by
   rw [sum_range_shift m i (Nat.le_of_lt him) _ (fun r hr => by simp [wnat, hr])]
   unfold colDot
   refine Finset.sum_congr rfl (fun l _ => ?_)
@@ -247,7 +248,7 @@ theorem computeStep_spec (sqrt : K → K) (m n rs cs : Nat) (B T : Array K) (i :
       omega
     · have e1 := a2 (c - i - 1) (l - i) (by omega) (by omega)
       rw [addr_c, show i + (l - i) = l by omega, show i + 1 + (c - i - 1) = c by omega] at e1
-      rw [e1, g2 l c hl hcn (by omega), colDot_step m rs cs g.2 i (c - i - 1) him, vv_step,
+      rw [e1, g2 l c hl hcn (by omega), colDot_step m rs cs g.2 g.2 i (c - i - 1) him, vv_step,
         show i + (l - i) = l by omega, show i + 1 + (c - i - 1) = c by omega, hw l hl]
       congr 3
       refine Finset.sum_congr rfl (fun r hr => ?_)
